@@ -4,8 +4,12 @@ package c19
 import (
 	"crypto/sha256"
 	"encoding/hex"
+	"encoding/json"
 	"fmt"
 	"math/rand"
+	"os"
+	"os/exec"
+	"path/filepath"
 	"strings"
 	"sync"
 	"unicode/utf8"
@@ -28,7 +32,7 @@ func (*prop) Rule() string {
 	return "Split and the six converters are called on every string up to length L over the 14-symbol alphabet {a,z,A,Z,0,9,_,-,.,space,é,Ü,ǅ(title case),\\xff} " +
 		"(exhaustive; L=4 quick, 6 thorough), on seeded long random strings over a wider alphabet (combining marks, CJK, emoji, NUL, lone surrogate bytes) and on the import-path segment shapes of C03. " +
 		"Oracles: no panic; every word non-empty; concatenation of the words == input; invalid UTF-8 => [input]; each converter returns the same string twice in a row, the same from 8 goroutines " +
-		"running concurrently under the race detector, and the same in a second worker process (digest comparison). " +
+		"running concurrently under the race detector, and the same in a second worker process (digest comparison); order independence: a fresh child process that converts the same inputs (case-fold families: istanbul / İstanbul, ß / ẞ / SS, σ / ς / Σ, ǆ / ǅ / Ǆ, K / k, ſ / s ...) in the reverse order must give the same answers. " +
 		"Non-trivial = the string has >=2 runes of >=2 different classes or starts with a non-letter/digit; distinct by construction (exhaustive shards) or by 64-bit hash (random)."
 }
 func (*prop) Assumptions() []string {
@@ -84,6 +88,9 @@ func (*prop) Cases(seed int64, tier string) []core.Case {
 		cs = append(cs, core.MkCase("random", map[string]int{"n": randN}))
 	}
 	cs = append(cs, core.MkCase("segments", nil))
+	for i := 0; i < 4; i++ {
+		cs = append(cs, core.MkCase("order", map[string]int{"n": randN / 4}))
+	}
 	return cs
 }
 
@@ -289,6 +296,8 @@ func (p *prop) Run(c core.Case, w *core.Worker) core.Result {
 		}
 		process(&res, inputs, false, "")
 		res.Sample(map[string]any{"Split": inputs[0], "words": camelcaseSplitSafe(inputs[0])}, 1)
+	case "order":
+		runOrder(c, w, &res)
 	case "segments":
 		inputs := []string{"", "_id", "-x", ".hidden", " x", "_", "__", "-", "a_", "go", "type", "2fa", "c-d", "c.d", "c~d", "v2", "yaml.v3", "json-iterator", "_x", "~user", "+inf",
 			"ID", "userID", "HTTPServer", "PDFLoader", "BöseÜberraschung", "BadUTF8\xe2\xe2\xa1", "99Bottles", "Two  spaces", "ǅx", "xǅ", "ǅ"}
@@ -306,6 +315,105 @@ func (p *prop) Run(c core.Case, w *core.Worker) core.Result {
 		}
 	}
 	return res
+}
+
+// ---- order independence: the converters must be pure functions of their input, so the answers of a fresh process that
+// sees the same inputs in the reverse order must be identical (catches memo caches keyed too coarsely)
+
+var orderPairs = []string{"istanbul", "İstanbul", "ISTANBUL", "ıstanbul", "ΟΔΟΣ", "οδοσ", "οδος", "ß", "ẞ", "SS", "ss", "ǆx", "ǅx", "Ǆx", "K", "k", "K", "ſ", "s", "S",
+	"id", "ID", "Id", "iD", "ıd", "İd", "userid", "userID", "UserId", "http_server", "HTTP_SERVER", "Http-Server", "ǅ", "ǆ", "Ǆ", "É", "é", "É", "é", "ﬁ", "FI", "fi", "ΐ", "ΐ"}
+
+func convAll(inputs []string) [][]string {
+	out := make([][]string, len(inputs))
+	for i, s := range inputs {
+		o := make([]string, 0, 6)
+		for _, c := range converters[:6] {
+			var r string
+			core.Guard(func() { r = c.f(s) })
+			o = append(o, r)
+		}
+		out[i] = o
+	}
+	return out
+}
+
+func init() {
+	core.RegisterHelper("c19order", func(argFile string) {
+		b, err := os.ReadFile(argFile)
+		if err != nil {
+			panic(err)
+		}
+		var inputs []string
+		if err := json.Unmarshal(b, &inputs); err != nil {
+			panic(err)
+		}
+		ob, _ := json.Marshal(convAll(inputs))
+		_ = os.WriteFile(argFile+".out", ob, 0o644)
+	})
+}
+
+func runOrder(c core.Case, w *core.Worker, res *core.Result) {
+	var rp map[string]int
+	c.Decode(&rp)
+	r := rand.New(rand.NewSource(c.Seed))
+	inputs := append([]string{}, orderPairs...)
+	// case variants of random words: same letters, different case patterns
+	for i := 0; i < rp["n"]; i++ {
+		wd := core.RandString(r, []string{"i", "I", "İ", "ı", "s", "S", "ß", "ẞ", "ſ", "k", "K", "K", "a", "A", "é", "É", "σ", "ς", "Σ", "ǆ", "ǅ", "Ǆ", "d", "D", "_", "-", "1"}, 1+r.Intn(5))
+		inputs = append(inputs, wd)
+	}
+	r.Shuffle(len(inputs), func(i, j int) { inputs[i], inputs[j] = inputs[j], inputs[i] })
+	here := convAll(inputs)
+	rev := make([]string, len(inputs))
+	for i, s := range inputs {
+		rev[len(inputs)-1-i] = s
+	}
+	dir, err := os.MkdirTemp(w.Scratch, "c19-")
+	if err != nil {
+		res.Inconclusive = append(res.Inconclusive, err.Error())
+		return
+	}
+	defer os.RemoveAll(dir)
+	argFile := filepath.Join(dir, "in.json")
+	ib, _ := json.Marshal(rev)
+	_ = os.WriteFile(argFile, ib, 0o644)
+	exe := os.Getenv("VERIF_EXE")
+	cmd := exec.Command(exe, "-helper", "c19order", argFile)
+	if ob, err := cmd.CombinedOutput(); err != nil {
+		res.Inconclusive = append(res.Inconclusive, fmt.Sprintf("helper process failed: %v %s", err, string(ob)))
+		return
+	}
+	var there [][]string
+	ob, _ := os.ReadFile(argFile + ".out")
+	if err := json.Unmarshal(ob, &there); err != nil || len(there) != len(inputs) {
+		res.Inconclusive = append(res.Inconclusive, "helper output unreadable")
+		return
+	}
+	// the first answer this process ever gave for an input vs the answer of the reverse-order process
+	first := map[string][]string{}
+	for i, s := range inputs {
+		if _, ok := first[s]; !ok {
+			first[s] = here[i]
+		}
+	}
+	firstThere := map[string][]string{}
+	for i, s := range rev {
+		if _, ok := firstThere[s]; !ok {
+			firstThere[s] = there[i]
+		}
+	}
+	for s, a := range first {
+		res.Evals++
+		res.NonTrivial("order|" + s)
+		b := firstThere[s]
+		for k := range a {
+			if a[k] != b[k] {
+				res.Fail("order-independent", converters[k].name, fmt.Sprintf("%s(%q) = %q in this process (inputs in one order) but %q in a fresh process that saw the same inputs in reverse order", converters[k].name, s, a[k], b[k]), s)
+			}
+		}
+	}
+	res.Count("order_independence_inputs_compared", int64(len(first)))
+	res.Sample(map[string]any{"order_case_inputs": inputs[:min(8, len(inputs))]}, 1)
 }
 
 func camelcaseSplitSafe(s string) (w []string) {
